@@ -49,3 +49,24 @@ Proof.
   apply (live_denotes nhash khash 65535 65535 65535 1048576 ltac:(lia) (m, rs) (4%nat, false) r HR Hr).
 Qed.
 Print Assumptions hypotheses_satisfiable.
+
+(* Non-vacuity of the "Storage is full" disjunct of the termination theorems, and of the high-water-mark invariant:
+   a 4-cell manager (cells 0 = sentinel, 1 = terminal, 2, 3) holds two nodes; the third constructor line yields no result,
+   in a reachable state whose table is full and whose ghost peak equals the high-water mark. *)
+Definition tiny_run (fuel : nat) (h : list hop) :=
+  @mrun nhash khash memo_ref memo_dm memo_nref memo_refN fuel (@minit 3 3 3 4) h.
+Lemma full_table_stops :
+  match tiny_run 100 [HVar 1; HVar 2] with
+  | Some ((m, rs), _) =>
+      @mstep nhash khash memo_ref memo_dm memo_nref memo_refN 100 (m, rs) (HVar 3) = None /\
+      last_index (tbl (core m)) = 3 /\ real_size (tbl (core m)) = 3 /\ peak (core m) = 3 /\ cap (tbl (core m)) = 4
+  | None => False
+  end.
+Proof. vm_compute. repeat split; reflexivity. Qed.
+(* after a collection that frees one of them the same line succeeds, reusing the freed cell: the mark stays at the peak *)
+Lemma freed_cell_is_reused :
+  match tiny_run 100 [HVar 1; HVar 2; HGc [(1%nat, false)]; HVar 3] with
+  | Some ((m, rs), _) => last_index (tbl (core m)) = 3 /\ real_size (tbl (core m)) = 3 /\ peak (core m) = 3
+  | None => False
+  end.
+Proof. vm_compute. repeat split; reflexivity. Qed.
